@@ -12,6 +12,7 @@ import (
 	"runtime/debug"
 	"runtime/pprof"
 	"strconv"
+	"strings"
 	"time"
 
 	"verif/engine/core"
@@ -58,9 +59,37 @@ func countTruncated() int {
 }
 
 type caseRef struct {
-	cfg   *config
-	first uint16
+	cfg    *config
+	firsts []uint16
 }
+
+// groups splits the operations 0..n-1 of a configuration into g interleaved
+// groups: one Family case is the sub-search below the first operations of one
+// group.
+func groups(n, g int) [][]uint16 {
+	if v, err := strconv.Atoi(os.Getenv("C03_GROUPS")); err == nil && v > 0 {
+		g = v
+	}
+	if g > n {
+		g = n
+	}
+	out := make([][]uint16, g)
+	for i := 0; i < n; i++ {
+		out[i%g] = append(out[i%g], uint16(i))
+	}
+	return out
+}
+
+func firstNames(sp space, firsts []uint16) string {
+	var names []string
+	for _, f := range firsts {
+		names = append(names, sp.opName(f))
+	}
+	return strings.Join(names, " | ")
+}
+
+const goGroups = 8
+const luaGroups = 4
 
 func goFamilies(tier string) []*core.Family {
 	cfgs := allConfigs()
@@ -70,8 +99,8 @@ func goFamilies(tier string) []*core.Family {
 		if _, ok := byFam[c.family]; !ok {
 			order = append(order, c.family)
 		}
-		for i := range c.ops {
-			byFam[c.family] = append(byFam[c.family], caseRef{c, uint16(i)})
+		for _, g := range groups(len(c.ops), goGroups) {
+			byFam[c.family] = append(byFam[c.family], caseRef{c, g})
 		}
 	}
 	caseCap := 50 * time.Second
@@ -93,7 +122,7 @@ func goFamilies(tier string) []*core.Family {
 			BudgetSeconds: budget,
 			Show: func(i uint64) string {
 				cr := cases[i]
-				return fmt.Sprintf("start %s = [%s]; first op %s; menu %v", cr.cfg.name, cr.cfg.startName(), cr.cfg.opName(cr.first), cr.cfg.menu)
+				return fmt.Sprintf("start %s = [%s]; menu %v; first operation one of: %s", cr.cfg.name, cr.cfg.startName(), cr.cfg.menu, firstNames(cr.cfg, cr.firsts))
 			},
 			Run: func(i uint64) core.Outcome {
 				cr := cases[i]
@@ -105,9 +134,12 @@ func goFamilies(tier string) []*core.Family {
 				if gd := globalDeadline(); gd.Before(until) {
 					until = gd
 				}
-				res := searchCase(cr.cfg, cr.first, depth, until)
+				res := searchCase(cr.cfg, cr.firsts, depth, until)
 				if res.truncated {
 					noteTruncated(name, i, res.depthDone)
+				}
+				if os.Getenv("C03_DEBUG") != "" {
+					fmt.Fprintf(os.Stderr, "case %s:%d %s depth=%d states=%d trans=%d viols=%d truncated=%v\n", name, i, cr.cfg.name, depth, res.states, res.trans, len(res.viols), res.truncated)
 				}
 				o := core.Outcome{States: res.states, Trans: res.trans, Viols: res.viols}
 				if res.trans == 0 && len(res.viols) == 0 {
@@ -145,7 +177,11 @@ func main() {
 			"a violating state is reported and not expanded further",
 		},
 		Init: func(tier string) {
-			debug.SetGCPercent(800) // the search allocates many short lived tables and programs
+			gc := 400 // the search allocates many short lived tables and programs
+			if v, err := strconv.Atoi(os.Getenv("C03_GC")); err == nil {
+				gc = v
+			}
+			debug.SetGCPercent(gc)
 			if !isWorker() && flag.Lookup("case").Value.String() == "" && flag.Lookup("list").Value.String() != "true" {
 				os.RemoveAll(truncDir())
 			}
